@@ -373,6 +373,35 @@ class C01(core.Check):
                                       'sig': layout_sig(fl)})
                         addr += len(b)
                 yield self._case(obj, lines, 'json', 'index-code')
+        # the selected variant's opcode: a short form listed in front of a general form that takes the same text - and a third one
+        # behind both (the first variant that takes the statement gives every field)
+        for endian in ('big', 'little'):
+            obj = isamod.base_isa(address_size=16, endian=endian)
+            obj['general']['registers'] = ['a', 'b']
+            obj['operand_sets'] = {
+                'reg': {'operand_values': {'ra': {'type': 'register', 'register': 'a', 'bytecode': {'value': 1, 'size': 4}},
+                                           'rb': {'type': 'register', 'register': 'b', 'bytecode': {'value': 2, 'size': 4}}}},
+                'i8': {'operand_values': {'n8': {'type': 'numeric', 'argument': {'size': 8, 'byte_align': True}}}},
+                'i16': {'operand_values': {'n16': {'type': 'numeric', 'argument': {'size': 16, 'byte_align': True}}}}}
+            obj['instructions'] = {'ld': {
+                'bytecode': {'value': 0x1, 'size': 4},
+                'operands': {'count': 2, 'specific_operands': {'short_a': {'list': {
+                    'sa': {'type': 'register', 'register': 'a', 'bytecode': {'value': 0xA, 'size': 4}},
+                    'sn': {'type': 'numeric', 'argument': {'size': 8, 'byte_align': True}}}}}},
+                'variants': [{'bytecode': {'value': 0x2, 'size': 4}, 'operands': {'count': 2, 'operand_sets': {'list': ['reg', 'i16']}}},
+                             {'bytecode': {'value': 0x3, 'size': 4}, 'operands': {'count': 2, 'operand_sets': {'list': ['reg', 'i8']}}}]}}
+            lines = [{'k': 'org', 'text': '.org 0', 'addr': 0}]
+            addr = 0
+            for st, txt in (({'mn': 'ld', 'variant': 0, 'spec': 'short_a', 'ops': [{'id': 'sa'}, {'id': 'sn', 'val': 0x12}]}, 'ld a, $12'),
+                            ({'mn': 'ld', 'variant': 1, 'spec': None, 'ops': [{'id': 'rb'}, {'id': 'n16', 'val': 0x1234}]}, 'ld b, $1234'),
+                            ({'mn': 'ld', 'variant': 1, 'spec': None, 'ops': [{'id': 'rb'}, {'id': 'n16', 'val': 7}]}, 'ld b, 7'),
+                            ({'mn': 'ld', 'variant': 0, 'spec': 'short_a', 'ops': [{'id': 'sa'}, {'id': 'sn', 'val': 7}]}, 'LD A, 7')):
+                b, fl = encode.encode(obj, st, addr, {'GLOBAL': (0, 65535)})
+                lines.append({'k': 'instr', 'text': txt, 'addr': addr, 'size': len(b), 'bytes': b.hex(),
+                              'fields': [[a, s_, al, e, k] for a, s_, al, e, k in fl],
+                              'tags': ['statement-taken-by-several-variants'], 'sig': layout_sig(fl)})
+                addr += len(b)
+            yield self._case(obj, lines, 'json', 'several-variants-take-it')
         # seed-independent prelude + seeded random programs
         n_pre = 250
         n_rand = 700 if tier == 'quick' else 12000
